@@ -231,6 +231,6 @@ func gen(r *rand.Rand, tier string, n int) []any {
 }
 
 func main() {
-	common.Main(common.Prop{ID: "C37", Facts: facts, Gen: gen, Run: run, QuickN: 150, ThoroughN: 1200,
+	common.Main(common.Prop{ID: "C37", Facts: facts, Gen: gen, Run: run, QuickN: 110, ThoroughN: 1200,
 		Preamble: "From Verif Require Import Lib.Downsample_Core Lib.Downsample_Aggr.\nOpen Scope Z_scope.\n"})
 }
